@@ -10,12 +10,16 @@ Items(s) == {<<s[k].t, s[k].f>> : k \in 1..Len(s)}
 Sym(ids) == [k \in 1..Len(ids) |-> [i |-> ids[k], w |-> FALSE]]
 D(a, b) == E!Dist(Sym(a), Sym(b), FALSE, FALSE)
 
+\* distance of the query to an entry as a rational <<num, den>>: the edit distance, or (cl.norm) divided by the longer length
+Max3(x, y, z) == IF x >= y THEN (IF x >= z THEN x ELSE z) ELSE (IF y >= z THEN y ELSE z)
+DQ(cl, q, t) == <<D(q, t), IF cl.norm THEN Max3(Len(q), Len(t), 1) ELSE 1>>
+Leq(x, y) == x[1] * y[2] <= y[1] * x[2]
 ClosestOk(items, cl) ==
     LET q == [k \in 1..Len(cl.q) |-> cl.q[k]] IN
     IF items = {} THEN ~cl.found
     ELSE /\ cl.found /\ <<cl.t, cl.f>> \in items
-         /\ \A it \in items : D(q, cl.t) <= D(q, it[1])
-         /\ \A it \in items : D(q, it[1]) = D(q, cl.t) => it[2] <= cl.f
+         /\ \A it \in items : Leq(DQ(cl, q, cl.t), DQ(cl, q, it[1]))
+         /\ \A it \in items : (Leq(DQ(cl, q, it[1]), DQ(cl, q, cl.t)) /\ Leq(DQ(cl, q, cl.t), DQ(cl, q, it[1]))) => it[2] <= cl.f
 
 JudgeWith(r, toks, items) ==
     LET cl == <<
